@@ -93,7 +93,8 @@ CHECKS.update({
               "producer per required state for the same worker and variant, one net first, vms as named, clone sources not runnable) is evaluated on graphs parsed by the real code "
               "for a menu of selections (eager, worker order permuted, multi-variant vm) and on every lazily expanded graph reached under solver-chosen schedules. "
               "(b) Real nodes stripped of their edges get every forward edge as a solver variable via descend_from_node, then the real parse_shared_root_from_object_roots; "
-              "exhaustive over all 2^(K choose 2) shapes, K=4 (5)."),
+              "exhaustive over all 2^(K choose 2) shapes, K=4 (5). "
+              "(c) deep cloning: the real parse_cloned_branches_for_node_and_object on real nodes chained 1..4 deep below a test with two parents (optionally two dependants at one level): every clone hangs below the matching clone of its parent, never below a retired clone source."),
         note="Selections are a concrete menu of the shipped suite (Cartesian parser not symbolically executable): 'for all restriction strings' is covered only for that menu. Trusted: structure.py oracle.",
         design="DESIGN.md §1 C06", engine="symx+vsched"),
     "C09": dict(
@@ -101,7 +102,7 @@ CHECKS.update({
         technique="lazy-vs-eager graph comparison under solver-explored schedules + bridging protocol explored over solver-chosen orders",
         text=("(a) every lazily expanded graph reached under solver-chosen schedules is compared node by node with the eagerly parsed graph (dependencies, objects; every selected compatible test expanded by some worker); "
               "(b) worker copies: symmetric bridging, four distinct registers shared by all copies; (c) the bridging protocol on real equivalent nodes with solver-chosen arrival order, "
-              "bridge-list order and interleaved visit registrations for both call-site protocols (exhaustive for 3 (4) copies); (d) parsing twice gives the same graph; (e) an observer on EdgeRegister.register remembers every recorded visit: at the end of every explored lazy traversal each one must still be in a register that some node uses (progress is never lost when copies are linked)."),
+              "bridge-list order and interleaved visit registrations for both call-site protocols (exhaustive for 3 (4) copies); (d) parsing twice gives the same graph; (e) an observer on EdgeRegister.register remembers every recorded visit: at the end of every explored lazy traversal each one must still be in a register that some node uses (progress is never lost when copies are linked); (f) every lazily expanded (flat) test leads to the clones of a test that was split per setup variant, not only to its retired source."),
         note="Selections from a concrete menu (L1). Trusted: structure.py signatures.",
         design="DESIGN.md §1 C09", engine="symx+vsched"),
     "C10": dict(
@@ -127,11 +128,12 @@ CHECKS.update({
 CHECKS.update({
     "C11": dict(
         category="other",
-        technique="solver-enumerated argument lists through the real params_from_cmd against a reference function of the documentation",
+        technique="solver-enumerated argument lists through the real params_from_cmd against a reference function of the documentation; z3 regular-language inclusion queries for the argument form",
         text=("The real cmd_parser.params_from_cmd (with full_vm_params_and_strs/full_tests_params_and_str, parser calls memoised) is run on every argument list of length <= 2 (3) over a menu of "
               "19 (26) argument forms (only/no, only_vmX/no_vmX incl. unknown objects, vms, nets, only_nets/no_nets, K=V, malformed); tests_str, vm_strs, param_dict and the vm selection are compared "
               "with a reference function written from the README; documented errors must raise ValueError. Also: Reparsable.parse_next_batch orders file < string < dict and a K=V override reaches "
-              "every parsed test of three selections. Exhaustive over the menu (381 / 14k lists)."),
+              "every parsed test of three selections. Exhaustive over the menu (381 / 14k lists). Argument form: the re call the real tokenizer makes on the whole argument (function and pattern, recorded through a shim) is translated "
+              "to a z3 regular language and compared both ways with the documented form <key>=<val> for every string of <= 12 printable characters (unsat = same language; a witness is replayed on the real params_from_cmd), plus concrete malformed probes."),
         note="The claim covers the repository side only: that the composed restriction strings select the same tests as an equivalent restriction is the Cartesian parser's semantics (outside). Argument values are concrete menu entries.",
         design="DESIGN.md §1 C11"),
     "C13": dict(
@@ -140,7 +142,8 @@ CHECKS.update({
         text=("The real SourcedStateBackend.show/get/set/unset (get_sources, get_source_scope) and RootSourcedStateBackend root operations run with transport and local _show/_get/_set/_unset as logging stubs. "
               "Gateways/hosts of the own worker and each source are uninterpreted atoms (the real comparisons and the proximity sort fork on their equality), presence locally/per source and cache validity "
               "are solver variables, pool_scope ranges over all 16 subsets, source lists of length <= 2 (3) over three path classes. Checked: only sources of an enabled scope are contacted, get uses the closest "
-              "permitted source and downloads exactly when needed, set/unset reach every permitted mirror, show reports only what is local or in a permitted source, updating without the local state is refused. Exhaustive."),
+              "permitted source and downloads exactly when needed, set/unset reach every permitted mirror, show reports only what is local or in a permitted source, updating without the local state is refused. Exhaustive. Cache validation chain: the real QCOW2ImageTransfer.compare_chain/transfer_chain "
+              "with equality of every file of the state a solver variable (4 object types x 1..2 images x backing chains of 1..3 states): compare_chain is true iff every file of the documented layout is equal, transfer_chain moves exactly those files."),
         note="transport and local backend methods are stubs (the substitution points the classes provide); closeness = (same gateway, same host, swarm_pool path).",
         design="DESIGN.md §1 C13"),
     "C14": dict(
@@ -169,7 +172,7 @@ CHECKS.update({
 })
 
 CHECKS.update({
-    "C15": _trav("C15", "The graph is the one the real intertest_setup.update builds (clean/run/skip graphs, flag_children/flag_intersection, bridging) entered through the selftests' job seam; TestRunner.run_workers hands it to the scheduler. Monitor: the executed setup tests are exactly the producers of the states on the from..to path of each selected vm (creation steps iff install is on the path), every unset request is for a state of a selected vm derived from the target state, every derived state is removed on every worker, nothing of other vms; nonexistent from/to states are rejected before anything runs. The path is checked per selected variant of a vm, removals must go through the connection of the worker they are meant for. Menu: six (from,to) pairs, vm1 / vm1+vm2 / both variants of vm1 / permanent vm3, 1-3 lxc workers and two remote workers behind one gateway."),
+    "C15": _trav("C15", "The graph is the one the real intertest_setup.update builds (clean/run/skip graphs, flag_children/flag_intersection, bridging) entered through the selftests' job seam; TestRunner.run_workers hands it to the scheduler. Monitor: the executed setup tests are exactly the producers of the states on the from..to path of each selected vm (creation steps iff install is on the path), every unset request is for a state of a selected vm derived from the target state, every derived state is removed on every worker, nothing of other vms; nonexistent from/to states are rejected before anything runs. The path is checked per selected variant of a vm, removals must go through the connection of the worker they are meant for. Menu: six (from,to) pairs, vm1 / vm1+vm2 / both variants of vm1 / permanent vm3, 1-3 lxc workers and two remote workers behind one gateway; with retries (max_tries 2, stop on pass) every path test is tried as often as the retry rule gives."),
     "C20": dict(
         category="other",
         technique="solver-chosen step outcomes through the real Manu.run + tool graphs built by the real intertest_setup code explored under solver-chosen schedules",
